@@ -298,7 +298,7 @@ def build() -> dict:
                 "path": "/verif/vf/extra.py",
                 "serves_properties": [],
                 "kind_free_text": "specifications beyond the listed properties (FutureBridge.tla: lowlevel.futures.unwrap_future; TaskHandle.tla: Task.join / "
-                "join_or_cancel / wait of the asyncio backend; exact replay of TLC behaviours); `cd /verif && /venv/bin/python -m vf.extra`; reports in evidence/extra/, never a property alarm",
+                "join_or_cancel / wait of the asyncio backend; Endpoint.tla: the stream packet endpoints, async and blocking; exact replay of TLC behaviours; SuiteTraces: traces of the repository's own functional tests against EndpointTrace.tla / LifecycleTrace.tla); `cd /verif && /venv/bin/python -m vf.extra`; reports in evidence/extra/, never a property alarm",
             },
         ],
         "checks": checks,
